@@ -71,8 +71,13 @@ func checkC13(w *World, tier string) *Report {
 			r.violated("R13.2", key, w.pos(cs.call.Pos()), "unexpected argument count")
 			continue
 		}
-		got := []string{c.expr(cs.call.Args[0]), c.expr(cs.call.Args[1]), c.expr(cs.call.Args[3]), c.expr(cs.call.Args[4])}
-		want := []string{"evm.StateDB", "caller.Address()", "value", "evm.Context.Transfer"}
+		// $r = receiver, $k = k-th parameter: Call(ctx, caller, addr, input, gas, value), create(ctx, caller, codeAndHash, gas, value, address, typ)
+		shape := paramShape(cs.pkg.TypesInfo, cs.decl)
+		got := []string{shape(cs.call.Args[0]), shape(cs.call.Args[1]), shape(cs.call.Args[3]), shape(cs.call.Args[4])}
+		want := []string{"$r.StateDB", "$1.Address()", "$5", "$r.Context.Transfer"}
+		if cs.fn == "vm.(*EVM).create" {
+			want[2] = "$4"
+		}
 		ok := true
 		for i := range want {
 			if got[i] != want[i] {
